@@ -36,8 +36,8 @@ def req(p, i):
     if p == 'Or': return 2
     if p in ('And', 'Not'): return 3
     if p == 'Compare': return 5
-    if p == 'Pow': return [13, 11][i] if i < 2 else 0
-    if p in BINARY: return PREC[p] + (1 if i == 1 else 0)
+    if p == 'Pow': return 13 if i == 0 else 11
+    if p in BINARY: return PREC[p] + (0 if i == 0 else 1)
     if p in ('USub', 'UAdd', 'Invert'): return 11
     if p in ('Attribute', 'Call', 'Subscript') and i == 0: return 13
     if p == 'StarElt': return 5
@@ -556,3 +556,65 @@ def tree_from_json(j):
     if k == 'Slice': d = tuple(d)
     if k == 'Formatted': d = tuple(d)
     return (k, d, [tree_from_json(c) for c in cs])
+
+
+class IntGen(object):
+    """Random trees whose value in a scope of small ints is (usually) an int or a short string: the external expressions of the
+    end-to-end route.  Receivers, conditional expressions, lambdas, f-strings with specs and braces are all in the mix."""
+    def __init__(self, rng):
+        self.rng = rng
+
+    def atom(self):
+        r = self.rng
+        if r.random() < 0.7: return ('Name', r.choice(NAMES), [])
+        return ('Const', repr(r.choice([0, 1, 2, 3])), [])
+
+    def test(self, depth):
+        r = self.rng
+        x = r.random()
+        if x < 0.5: return ('Compare', [r.choice(['Lt', 'LtE', 'Eq', 'NotEq', 'Gt'])], [self.expr(depth - 1), self.expr(depth - 1)])
+        if x < 0.7: return ('Not', None, [self.expr(depth - 1)])
+        return self.expr(depth - 1)
+
+    def expr(self, depth):
+        r = self.rng
+        if depth <= 0 or r.random() < 0.15: return self.atom()
+        sub = lambda: self.expr(depth - 1)
+        g = r.choice(['arith', 'arith', 'arith', 'bit', 'un', 'pow', 'bool', 'ifexp', 'ifexp', 'attr', 'method', 'index', 'lamcall', 'func'])
+        if g == 'arith': return (r.choice(['Add', 'Sub', 'Mult', 'FloorDiv', 'Mod']), None, [sub(), sub()])
+        if g == 'bit': return (r.choice(['BitOr', 'BitXor', 'BitAnd', 'LShift']), None, [sub(), ('Const', repr(r.choice([0, 1, 2])), []) if r.random() < 0.5 else sub()])
+        if g == 'un': return (r.choice(['USub', 'UAdd']), None, [sub()])
+        if g == 'pow': return ('Pow', None, [sub(), r.choice([('Const', '2', []), ('Const', '3', []), ('Name', 'b', []), ('Pow', None, [('Name', 'b', []), ('Const', '2', [])])])])
+        if g == 'bool': return (r.choice(BOOL), None, [sub(), sub()])
+        if g == 'ifexp': return ('IfExp', None, [sub(), self.test(depth), sub()])
+        if g == 'attr': return ('Attribute', r.choice(['real', 'numerator']), [self.nonliteral(sub())])
+        if g == 'method': return ('Call', None, [('Attribute', r.choice(['bit_length', '__abs__', '__neg__']), [self.nonliteral(sub())])])
+        if g == 'index':
+            disp = (r.choice(['List', 'Tuple']), None, [sub(), sub(), sub()])
+            x = r.random()
+            if x < 0.6: return ('Subscript', None, [disp, ('Const', repr(r.choice([0, 1, 2])), [])])
+            if x < 0.8: return ('Subscript', None, [('Subscript', None, [disp, ('Slice', (True, False, False), [('Const', '1', [])])]), ('Const', '0', [])])
+            return ('Subscript', None, [disp, ('USub', None, [('Const', '1', [])])])
+        if g == 'lamcall': return ('Call', None, [('Lambda', ['u'], [('Add', None, [('Name', 'u', []), sub()])]), sub()])
+        if g == 'func': return ('Call', None, [('Name', r.choice(['abs', 'len']), []), sub()]) if r.random() < 0.5 else \
+                               ('Call', None, [('Name', 'len', []), self.fstr(depth)])
+        raise ValueError(g)
+
+    def nonliteral(self, t):
+        if t[0] == 'Const' and t[1].isdigit(): return ('Name', self.rng.choice(NAMES), [])
+        return t
+
+    def fstr(self, depth):
+        r = self.rng
+        n = r.choice([1, 1, 2])
+        lits = [r.choice(['', '', 'x', '{', '}', '{y}', '-']) for _ in range(n + 1)]
+        fields = [('Formatted', (r.choice([None, None, 'r', 's']), r.choice([None, '>3', '<4', '04'])), [self.quotefree(self.expr(depth - 1))]) for _ in range(n)]
+        return ('Joined', lits, fields)
+
+    def quotefree(self, t):
+        return t if quote_free(t) and not has_kind(t, {'Lambda'}) else self.atom()
+
+    def top(self, depth):
+        """an expression for the query route: int-valued, or an f-string compared with the string column"""
+        if self.rng.random() < 0.12: return self.fstr(depth)
+        return self.expr(depth)
